@@ -190,6 +190,15 @@ def ghost_call(ex, st, name, e):
             return mk_bool(z3.And(row[m][lv], has[m][lv][oid]))
         kind = (args[0].x or "lomap:int").split(":", 1)[1]
         return mk_int(val[m][lv][oid]) if kind == "int" else mk_ref(val[m][lv][oid], kind)
+    if name == "existing_unchanged":
+        # frame for a whole heap field: every object that existed on entry keeps its entry value
+        fname = e.args[0].value
+        cur = ctx.field_array(st, fname)
+        old = fr.old_state.heap.get(fname) if fr.old_state is not None else None
+        if old is None:
+            old = ctx.field_sorts[fname][1]
+        x = ctx.fresh("q_x")
+        return mk_bool(z3.ForAll([x], z3.Implies(x > 0, cur[x] == old[x]), patterns=[cur[x]]))
     if name == "is_fresh":
         # allocated during the call: distinct from every object that existed on entry and, when a callee's
         # postcondition is assumed at a call site, from everything the caller has allocated so far
@@ -526,6 +535,19 @@ def inline_sidecar(ex, st, fn, args, kwargs, e):
     node, mod = fn.__pyvc_inline__
     if ctx.inline_depth > 12:
         raise Unsupported("inlining too deep at %s" % fn.__name__, e)
+    # memoisation of pure helper evaluations in specification mode: the result is a function of the argument
+    # terms and of the heap arrays the helper reads (recorded on first evaluation)
+    ckey = None
+    if ctx.spec_mode and not kwargs and all(a.k in ("int", "bool", "ref", "str", "array", "none") for a in args):
+        deps = ctx.inline_deps.get(fn.__name__)
+        if deps is not None:
+            sig = tuple(a.z.get_id() if a.z is not None else -1 for a in args) + tuple(
+                (f, st.heap[f].get_id() if f in st.heap else -1) for f in deps) + (id(ctx.frames[-1].old_state),)
+            ckey = (fn.__name__, sig)
+            hit = ctx.inline_cache.get(ckey)
+            if hit is not None:
+                return hit
+        ctx.read_log.append(set())
     a = node.args
     names = [x.arg for x in a.args]
     defaults = [None] * (len(names) - len(a.defaults)) + list(a.defaults)
@@ -557,11 +579,26 @@ def inline_sidecar(ex, st, fn, args, kwargs, e):
         rs.defd["__ret"] = z3.BoolVal(True)
         outs.append(rs)
     if not outs:
+        if ctx.spec_mode and not kwargs and all(a.k in ("int", "bool", "ref", "str", "array", "none") for a in args):
+            ctx.read_log.pop()
         st.dead = True
         return NONE
     merge_states(ctx, outs, st)
     rv = st.env.pop("__ret")
     st.defd.pop("__ret", None)
+    if ctx.spec_mode and not kwargs and all(a.k in ("int", "bool", "ref", "str", "array", "none") for a in args):
+        reads = ctx.read_log.pop()
+        if ctx.read_log:
+            ctx.read_log[-1] |= reads
+        if fn.__name__ not in ctx.inline_deps:
+            ctx.inline_deps[fn.__name__] = sorted(reads)
+        deps = ctx.inline_deps[fn.__name__]
+        if set(reads) <= set(deps) and rv.k in ("int", "bool", "ref", "str", "array", "none"):
+            sig = tuple(a.z.get_id() if a.z is not None else -1 for a in args) + tuple(
+                (f, st.heap[f].get_id() if f in st.heap else -1) for f in deps) + (id(ctx.frames[-1].old_state),)
+            ctx.inline_cache[(fn.__name__, sig)] = rv
+        elif not set(reads) <= set(deps):
+            ctx.inline_deps[fn.__name__] = sorted(set(deps) | set(reads))
     return rv
 
 
@@ -778,6 +815,12 @@ def contract_call(ex, st, contract, args, kwargs, e):
             for (txt, node) in contract.ensures:
                 z = ex.ev_spec(tmp, node)
                 ctx.assume(post, z)
+            for ((txt, node), why) in contract.assumed_ensures:
+                z = ex.ev_spec(tmp, node)
+                ctx.assume(post, z)
+                note = "ASSUMED postcondition of %s (not verified against its body): %s -- %s" % (contract.short, txt, why)
+                if note not in ctx.notes:
+                    ctx.notes.append(note)
         finally:
             ctx.assuming_post = False
     finally:
